@@ -93,15 +93,16 @@ def bounded_info():
             "(count declared/back-filled) x (records as lists/tuples/pre-formatted strings): 448 record lists of 1..4 records drawn from a "
             "64-record pool that covers all 64 (residue number, atom number) pairs of {0,1,7,99998,99999,100000,100001,10^7}, 16 names of "
             "1..5 non-blank characters (digit-leading included) in both name columns and every boundary coordinate/velocity that fits the "
-            "width in each of the x,y,z columns; titles (10 kinds incl. unset and 3 with multi-byte UTF-8 characters), boxes (10: 3-vector, diagonal, triclinic incl. "
-            "negative-only and mixed-sign tilt terms, lists/numpy/ints), "
-            "writeline/writelines and box set before/after the records rotate so that every one of the 400 combinations occurs in every task; "
+            "width in each of the x,y,z columns; titles (10 kinds incl. unset and 3 with multi-byte UTF-8 characters), boxes (19: 3-vector, diagonal, GROMACS-valid triclinic incl. "
+            "negative-only and mixed-sign tilt terms, and general 3x3 arrays -- upper-triangular only, one box per single off-diagonal "
+            "position, dense with and without negative entries; lists/numpy/ints), "
+            "writeline/writelines and box set before/after the records rotate so that every one of the 760 combinations occurs in every task; "
             "the empty title is a separate family (48 files). Thorough adds lists of 5..8 records, three 300-record files per configuration "
             "(one per record form) and 10000 VERIF_SEED-seeded random record lists of 1..8 records per configuration (random printable names, "
             "numbers in [0,10^7], coordinates over the whole representable range and at rounding boundaries). Function-level contracts "
             "(parse_atomlist against this module's fixed-column reading, determine_format, parse_atomline against the same reading of the line "
             "it is given, dump/extract_lattice_gro) are evaluated on every pool record (thorough: + 20000 random records per format) and on "
-            "155 boxes (thorough: + 20000 random). The quick tier does not depend on the seed. "
+            "206 boxes incl. general 3x3 (thorough: + 25000 random). The quick tier does not depend on the seed. "
             "Nothing here is a proof: every obligation is kind=bounded."),
         "rule": ("one evaluation = one complete write session + independent reading of the bytes + read session (file level), or one "
                  "record/box through the class/module function (function level); distinct = distinct (configuration, record list) key; "
@@ -141,6 +142,16 @@ BOXES = [
     {"kind": "triclinic-hexagonal-negative-v2x", "value": [[5.0, 0.0, 0.0], [-2.5, 4.33013, 0.0], [0.0, 0.0, 6.0]], "numpy": False},
     {"kind": "triclinic-all-tilts-negative", "value": [[4.0, 0.0, 0.0], [-1.0, 4.5, 0.0], [-0.75, -1.25, 5.0]], "numpy": True},
     {"kind": "triclinic-mixed-sign-tilts", "value": [[4.0, 0.0, 0.0], [-1.5, 4.5, 0.0], [0.75, -0.00002, 5.0]], "numpy": False},
+    # general 3x3 arrays: the box_matrix setter and dump/extract accept any 3x3 array, "the same box" holds for them too
+    {"kind": "general-upper-triangular", "value": [[4.0, 0.5, 0.25], [0.0, 5.0, -0.75], [0.0, 0.0, 6.0]], "numpy": False},
+    {"kind": "general-only-v1y", "value": [[4.0, 0.75, 0.0], [0.0, 5.0, 0.0], [0.0, 0.0, 6.0]], "numpy": False},
+    {"kind": "general-only-v1z", "value": [[4.0, 0.0, -1.25], [0.0, 5.0, 0.0], [0.0, 0.0, 6.0]], "numpy": True},
+    {"kind": "general-only-v2x", "value": [[4.0, 0.0, 0.0], [-1.25, 5.0, 0.0], [0.0, 0.0, 6.0]], "numpy": False},
+    {"kind": "general-only-v2z", "value": [[4.0, 0.0, 0.0], [0.0, 5.0, 0.75], [0.0, 0.0, 6.0]], "numpy": False},
+    {"kind": "general-only-v3x", "value": [[4.0, 0.0, 0.0], [0.0, 5.0, 0.0], [0.75, 0.0, 6.0]], "numpy": True},
+    {"kind": "general-only-v3y", "value": [[4.0, 0.0, 0.0], [0.0, 5.0, 0.0], [0.0, -1.25, 6.0]], "numpy": False},
+    {"kind": "general-dense", "value": [[3.1, 0.21, 0.32], [0.43, 4.1, 0.54], [0.65, 0.76, 5.1]], "numpy": False},
+    {"kind": "general-dense-negative-entries", "value": [[3.12345, -0.2, 0.3], [0.4, 4.1, -0.5], [-0.6, 0.7, 5.55555]], "numpy": True},
 ]
 APIS = ["writeline", "writelines"]
 BOX_WHEN = ["before", "after"]
@@ -1045,8 +1056,20 @@ def box_scope(tier, seed):
         for m, b in enumerate(vals):
             c = vals[(k + m) % len(vals)]
             Ms.append([[3.0 + k, 0.0, 0.0], [a, 4.0 + m, 0.0], [b, c, 5.0 + 0.11111 * k]])
+    for (i, j) in ((0, 1), (0, 2), (1, 0), (1, 2), (2, 0), (2, 1)):        # one off-diagonal entry at a time, any position, any sign
+        for v in (0.75, -1.25, 0.000006, -0.00001, 123.45678):
+            M = [[4.0, 0.0, 0.0], [0.0, 5.0, 0.0], [0.0, 0.0, 6.0]]
+            M[i][j] = v
+            Ms.append(M)
+    for k in range(6):                                                      # upper-triangular only, dense, signs varied
+        sg = [1 if (k >> b) & 1 else -1 for b in range(3)]
+        Ms.append([[4.0, 0.5 * sg[0], 0.25 * sg[1]], [0.0, 5.0, 0.75 * sg[2]], [0.0, 0.0, 6.0]])
+        Ms.append([[3.0 + k, 0.21 * sg[0], -0.32 * sg[1]], [0.43 * sg[2], 4.0 + k, 0.54 * sg[0]], [-0.65 * sg[1], 0.76 * sg[2], 5.0 + k]])
     if tier == "thorough":
         rng = random.Random(seed + 1313)
+        for _ in range(5000):
+            Ms.append([[rng.choice((0.0, rng.uniform(-20, 20), round(rng.uniform(-5, 5), 5))) if i != j else rng.uniform(0.001, 200.0)
+                        for j in range(3)] for i in range(3)])
         for _ in range(20000):
             t = [rng.choice((0.0, rng.uniform(-50, 50), round(rng.uniform(-5, 5), 5) + rng.choice((0, 5e-6, 4.9e-6)))) for _ in range(3)]
             dg = [rng.uniform(0.001, 200.0) for _ in range(3)]
@@ -1061,7 +1084,7 @@ def task_boxes(prop, tier, seed):
         bad, done, line = check_box(M)
         agg.add(zlib.crc32(repr(M).encode()), any(M[i][j] for i in range(3) for j in range(3) if i != j), bad, done,
                 {"fn": PFX + "box", "matrix": M}, sample={"matrix": M, "line": line, "_rank": 1} if n == 4 else None)
-    return agg.obligations(prop, "3-vector+diagonal+triclinic" + ("+random-seeded" if tier == "thorough" else ""), time.time() - t0, unit="boxes")
+    return agg.obligations(prop, "3-vector+diagonal+triclinic+general-3x3" + ("+random-seeded" if tier == "thorough" else ""), time.time() - t0, unit="boxes")
 
 
 def task_title_empty(prop, tier, seed):
@@ -1216,7 +1239,7 @@ def task_guards(prop, seed):
                           reason=(bad.get(clause) or ("not caught", ""))[0][:300], sample={"line": line}))
         for clause, name, cor in ((X_RT, "box-entry-off-by-1e-5", lambda s: _bump_last_digit(s, 0, 9)),
                                   (X_RT, "box-order-permuted", lambda s: " ".join(s.split()[:3] + s.split()[4:] + s.split()[3:4])),
-                                  (X_RT, "four-decimals-lose-precision", lambda s: " ".join(t[:-1] for t in s.split())),
+                                  (X_RT, "four-decimals-lose-precision", lambda s: " ".join(t[:t.index(".") + 5] for t in s.split())),
                                   (X_LINE, "entry-not-a-number", lambda s: s.replace("2.98765", "2.9876x"))):
             gid = f"{prop}/{F_BOX}/guard.must-fail.{clause[1].split('.', 1)[1]}/{name}"
             try:
@@ -1261,12 +1284,19 @@ def scope_coverage():
     cov["name-lengths-1-to-5-in-both-columns"] = all({len(r[c]) for r in allrec} == {1, 2, 3, 4, 5} for c in (1, 2))
     cov["digit-leading-names-in-both-columns"] = all(any(r[c][0].isdigit() for r in allrec) for c in (1, 2))
     cov["names-non-blank-ascii"] = all(1 <= len(s) <= 5 and s.isascii() and not any(ch.isspace() for ch in s) for s in NAMES)
-    cov["box-kinds"] = {b["kind"].split("-")[0] for b in BOXES} == {"vector", "diagonal", "triclinic"} and all(
-        b["value"][0][1] == 0 and b["value"][0][2] == 0 and b["value"][1][2] == 0 for b in BOXES if isinstance(b["value"][0], list))
+    cov["box-kinds"] = {b["kind"].split("-")[0] for b in BOXES} == {"vector", "diagonal", "triclinic", "general"} and all(
+        b["value"][0][1] == 0 and b["value"][0][2] == 0 and b["value"][1][2] == 0 for b in BOXES if b["kind"].startswith(("diagonal", "triclinic")))
+    gen = [b["value"] for b in BOXES if b["kind"].startswith("general")]
+    offd = [(0, 1), (0, 2), (1, 0), (1, 2), (2, 0), (2, 1)]
+    cov["general-3x3-one-box-per-single-off-diagonal-position"] = all(
+        any(m[i][j] != 0 and all(m[a][b] == 0 for a, b in offd if (a, b) != (i, j)) for m in gen) for i, j in offd)
+    cov["general-3x3-upper-triangular-only"] = any(all(m[i][j] != 0 for i, j in offd if i < j) and all(m[i][j] == 0 for i, j in offd if i > j) for m in gen)
+    cov["general-3x3-dense-with-negative-entries"] = any(all(x != 0 for r in m for x in r) and any(x < 0 for r in m for x in r) for m in gen) \
+        and any(all(x > 0 for r in m for x in r) for m in gen)
     combos = {rotate(j) for j in range(448 * 3)}
     cov["title-box-api-timing-all-combinations-per-task"] = len(combos) == N_ROT
     cov["multi-byte-titles-writable-and-present"] = sum(1 for k, t in TITLES if t and title_writable(t) and len(t.encode(text_encoding())) > len(t)) >= 2
-    tilts = [[b["value"][1][0], b["value"][2][0], b["value"][2][1]] for b in BOXES if isinstance(b["value"][0], list)]
+    tilts = [[b["value"][1][0], b["value"][2][0], b["value"][2][1]] for b in BOXES if b["kind"].startswith("triclinic")]
     cov["triclinic-boxes-with-no-positive-tilt"] = sum(1 for t in tilts if min(t) < 0 and max(t) <= 0) >= 2
     cov["triclinic-boxes-with-mixed-sign-tilts"] = any(min(t) < 0 < max(t) for t in tilts)
     return cov
